@@ -65,7 +65,34 @@ func genSDCase(r *rand.Rand) SDCase {
 	cur := map[string]model.Ent{}
 	n := 6 + r.Intn(15)
 	ladder := r.Intn(4) == 0
+	twin := r.Intn(3) == 0
 	for i := 0; i < n; i++ {
+		if twin && i == n/3 {
+			// equal-length update next to unchanged structured values: only one scalar (or one element of one list)
+			// changes, to a value of the same serialised length
+			ds := c.Datasets[r.Intn(nds)]
+			id := v.IDs[r.Intn(len(v.IDs))]
+			a := model.Ent{ID: id, Refs: map[string]any{v.Preds[0]: v.IDs[0]}, Props: map[string]any{
+				v.Props[0]: []any{float64(1), "x"}, v.Props[1]: "s0", v.Props[2]: map[string]any{"id": v.IDs[1], "props": map[string]any{v.Props[0]: "n0"}, "refs": map[string]any{}}}}
+			b := gen.Clone(a)
+			switch r.Intn(3) {
+			case 0:
+				b.Props[v.Props[1]] = "s1"
+			case 1:
+				b.Props[v.Props[0]] = []any{float64(1), "y"}
+			default:
+				b.Props[v.Props[1]] = "s1"
+				delete(b.Props, v.Props[2])
+				delete(a.Props, v.Props[2])
+			}
+			a, b = model.NormEnt(a), model.NormEnt(b)
+			c.Ops = append(c.Ops, SDOp{Kind: "batch", DS: ds, Ents: []model.Ent{a}}, SDOp{Kind: "batch", DS: ds, Ents: []model.Ent{b}},
+				SDOp{Kind: "batch", DS: ds, Ents: []model.Ent{a, b}})
+			cur[ds+"|"+id] = b
+			tags["equal-length"] = true
+			tags["equal-length-update-next-to-unchanged-list"] = true
+			continue
+		}
 		if ladder && i == n/2 {
 			ds := c.Datasets[r.Intn(nds)]
 			id := v.IDs[r.Intn(len(v.IDs))]
